@@ -12,7 +12,8 @@ build_clocked() {
   (cd "$V/sim" && go build -modfile="$B/harness.mod" -tags mapsim -overlay "$out/src/overlay.json" -o "$out/vcheck" ./cmd/vcheck) || infra "clocked build of vcheck failed"
 }
 build_clocked "$B/C09"
-build_clisim "$B/C09/clisim.test"
+CLISIM_CLOCKED=1 build_clisim "$B/C09/clisim.test"
+export VERIF_CLISIM_CLOCKED=1
 export VERIF_CLISIM_BIN="$B/C09/clisim.test"
 ulimit -v 33554432 2>/dev/null
 case "${1:-quick}" in
